@@ -4,6 +4,7 @@ mod extract;
 mod c03;
 mod c14;
 mod c15;
+mod c16;
 mod c17;
 mod fault;
 mod plonkrun;
@@ -11,6 +12,35 @@ mod rec;
 mod rels;
 mod shapes;
 mod util;
+
+use std::{
+    alloc::{GlobalAlloc, Layout, System},
+    sync::atomic::{AtomicUsize, Ordering},
+};
+
+/// Largest single allocation requested since the counter was last reset.
+pub static MAX_ALLOC: AtomicUsize = AtomicUsize::new(0);
+
+struct Track;
+unsafe impl GlobalAlloc for Track {
+    unsafe fn alloc(&self, l: Layout) -> *mut u8 {
+        MAX_ALLOC.fetch_max(l.size(), Ordering::Relaxed);
+        System.alloc(l)
+    }
+    unsafe fn dealloc(&self, p: *mut u8, l: Layout) {
+        System.dealloc(p, l)
+    }
+    unsafe fn realloc(&self, p: *mut u8, l: Layout, n: usize) -> *mut u8 {
+        MAX_ALLOC.fetch_max(n, Ordering::Relaxed);
+        System.realloc(p, l, n)
+    }
+    unsafe fn alloc_zeroed(&self, l: Layout) -> *mut u8 {
+        MAX_ALLOC.fetch_max(l.size(), Ordering::Relaxed);
+        System.alloc_zeroed(l)
+    }
+}
+#[global_allocator]
+static GLOBAL: Track = Track;
 
 fn main() {
     // panics inside code under test are data; keep the default hook quiet
@@ -32,6 +62,7 @@ fn main() {
         "c03" => c03::main(rest),
         "c14" => c14::main(rest),
         "c15" => c15::main(rest),
+        "c16" => c16::main(rest),
         "c17" => c17::main(rest),
         "randshape" => {
             let seed: u64 = rest[0].parse().unwrap();
